@@ -156,7 +156,11 @@ func c15Child(raw json.RawMessage) any {
 		fm.loadOmit[uint16(lo+o%n)] = true
 	}
 	if sc.FileDump != "" {
-		path := filepath.Join(os.TempDir(), fmt.Sprintf("c15-%d.json", os.Getpid()))
+		dir := os.Getenv("VERIF_WORK") // removed by the driver after the run (a start-up that fail-stops never reaches the deferred Remove)
+		if dir == "" {
+			dir = os.TempDir()
+		}
+		path := filepath.Join(dir, fmt.Sprintf("c15-%d.json", os.Getpid()))
 		defer os.Remove(path)
 		content := "{\"0\": {\"checkpoint\": {\"vbuuid\": 1, \"seqno\": 0, \"snapshot\": {\"startSeqno\": 0, \"endSeqno\": 0}}, \"bucketUuid\": \"u\""
 		if sc.FileDump == "partial" {
